@@ -466,3 +466,14 @@ CHECKS['C06']['jobs'] += _mode_jobs('MODE_SCHED', [2], extra=['WITH_JOBSERVER', 
 CHECKS['C01']['jobs'] += _hist_jobs('CHECK_C01', 2, 3, [42])
 CHECKS['C03']['jobs'] += _hist_jobs('CHECK_C03', 2, 3, [42], reach=('built', 'minimality-checked'))
 CHECKS['C04']['jobs'] += _mode_jobs('MODE_SCHED', [43], suffix='_sched', reach=('built',), bounds='one invocation from the empty tree, -j in {1,2,3}, every completion order; one command prunes empty directories (the depfile directory is empty again once ninja has read and removed a deps=gcc depfile)')
+CHECKS['C16']['jobs'].append(dict(name='in_and_newline', harness='c16_escape.cc', units=_C16_UNITS, defines=['MODE_BOTH'], reach=['several-names', 'one-name', 'command', 'rspfile_content', 'description'],
+    quick=dict(defines=['VERIF_NAMES=2', 'VERIF_LEN=1'], bounds='one statement with command = $in, rspfile_content = $in_newline, description = $out; 1..2 explicit inputs of 1 byte; three evaluations in every order (with repetitions), then EvaluateCommand(incl_rsp_file)'),
+    thorough=dict(defines=['VERIF_NAMES=2', 'VERIF_LEN=2'], bounds='the same with names of 1..2 bytes', limits=dict(time=3000, max_paths=2000000))))
+CHECKS['C12']['jobs'].append(dict(name='attrs', harness='c12_manifest.cc', units=_PARSE_UNITS, defines=['MODE_ATTRS'], reach=['build-block', 'rule', 'file', 'parent-file', 'rejected'],
+    bounds='7 statement attributes (dyndep, depfile, deps, restat, generator, description, pool) x bound in {build block, rule, file, subninja parent} x statement with/without its own block x {LF, CRLF} x dyndep file listed as input or not'))
+CHECKS['C12']['level_text'] += ' A fifth family binds each attribute ninja itself reads from a statement (dyndep, depfile, deps, restat, generator, description, pool) at each level of the documented lookup order and checks that the statement gets it.'
+CHECKS['C13']['jobs'].append(dict(name='manifest_rulevars', harness='c13_inputs.cc', units=_PARSE_UNITS, defines=['MODE_RULEVARS'], hooks=['const_hash'], budget_overrun_is_violation=True,
+    limits=dict(max_steps=400000, max_depth=200), reach=['evaluated'], bounds='a rule whose variables description, rspfile, rspfile_content each consist of two references chosen from {literal, $description, $rspfile, $rspfile_content} (4^6 reference graphs), command = $description $rspfile; every variable evaluated, in two orders'))
+SCENARIOS += ['dyndep_input_also_order_only']     # 44
+CHECKS['C11']['jobs'] += _hist_jobs('CHECK_C11', 2, 3, [44], extra_defs=['SINGLE_EDIT'], reach=('built', 'incremental-build'))
+CHECKS['C11']['jobs'][-1]['quick']['bounds'] = CHECKS['C11']['jobs'][-1]['quick']['bounds'].replace('any subset of sources edited', 'at most one source edited') + '; the input the dyndep file adds is already listed as an order-only input of the statement'
